@@ -4,7 +4,10 @@ package main
 
 import (
 	"fmt"
+	"math/rand"
+	"sort"
 	"strings"
+	"sync"
 
 	"github.com/internetarchive/Zeno/pkg/models"
 )
@@ -128,6 +131,9 @@ func init() {
 		index := map[string]*models.Item{}
 		return func(in map[string]any) string {
 			op := str(in, "op")
+			if op == "concurrent" {
+				return itemConcurrent(num(in, "children", 16), num(in, "workers", 4), num(in, "rounds", 100), int64(num(in, "seed", 1)))
+			}
 			if op == "tree" {
 				index = map[string]*models.Item{}
 				t, err := buildTree(list(in, "t"), nil, index)
@@ -209,4 +215,91 @@ func init() {
 			return "harness-error bad-op"
 		}
 	})
+}
+
+// itemConcurrent: several goroutines remove disjoint sets of children of one parent while others
+// add new children; afterwards exactly the expected children must remain, each linked to the parent.
+func itemConcurrent(children, workers, rounds int, seed int64) (res string) {
+	defer func() {
+		if r := recover(); r != nil {
+			res = fmt.Sprintf("panic %v", r)
+		}
+	}()
+	rng := rand.New(rand.NewSource(seed))
+	for round := 0; round < rounds; round++ {
+		parent := models.NewItem("p", urlFor("p"), "")
+		kids := make([]*models.Item, children)
+		for i := range kids {
+			kids[i] = models.NewItem(fmt.Sprintf("k%d", i), urlFor(fmt.Sprintf("k%d", i)), "")
+			if err := parent.AddChild(kids[i], models.ItemGotChildren); err != nil {
+				return "err " + err.Error()
+			}
+		}
+		// each worker removes its own share (chosen at random), and adds `adds` new children
+		perm := rng.Perm(children)
+		nrm := children / 2
+		remove := perm[:nrm]
+		var wg sync.WaitGroup
+		start := make(chan struct{})
+		panicked := make(chan string, workers)
+		for w := 0; w < workers; w++ {
+			wg.Add(1)
+			go func(w int) {
+				defer wg.Done()
+				defer func() {
+					if r := recover(); r != nil {
+						panicked <- fmt.Sprint(r)
+					}
+				}()
+				<-start
+				for j := w; j < len(remove); j += workers {
+					parent.RemoveChild(kids[remove[j]])
+				}
+				c := models.NewItem(fmt.Sprintf("n%d", w), urlFor(fmt.Sprintf("n%d", w)), "")
+				_ = parent.AddChild(c, models.ItemGotChildren)
+			}(w)
+		}
+		close(start)
+		wg.Wait()
+		select {
+		case p := <-panicked:
+			return "panic " + p
+		default:
+		}
+		want := map[string]bool{}
+		for _, idx := range perm[nrm:] {
+			want[kids[idx].GetID()] = true
+		}
+		for w := 0; w < workers; w++ {
+			want[fmt.Sprintf("n%d", w)] = true
+		}
+		got := map[string]bool{}
+		for _, c := range parent.GetChildren() {
+			if c.GetParent() != parent {
+				return "bad child " + c.GetID() + " not linked to parent"
+			}
+			if got[c.GetID()] {
+				return "bad duplicate child " + c.GetID()
+			}
+			got[c.GetID()] = true
+		}
+		if len(got) != len(want) {
+			var g, wl []string
+			for k := range got {
+				g = append(g, k)
+			}
+			for k := range want {
+				wl = append(wl, k)
+			}
+			sort.Strings(g)
+			sort.Strings(wl)
+			return fmt.Sprintf("bad round=%d children=%v want=%v", round, g, wl)
+		}
+		for k := range want {
+			if !got[k] {
+				return fmt.Sprintf("bad round=%d missing=%s", round, k)
+			}
+		}
+	}
+	return "ok"
 }
